@@ -72,9 +72,41 @@ def _scenario(draw, max_n):
 
 
 @st.composite
+def _tie_scenario(draw):
+    """control with strategy 'all' where several override sets over the SAME variables exist (a latch driven by a
+    parity-like function of two inputs), optionally next to a generated component - the shape in which the order of
+    equally-named driver sets is decided by set iteration order"""
+    # the two inputs form a bistable pair whose stable states give parity 0, so the latch v0/v1 has two minimal trap
+    # spaces and the motif {v0:1,v1:1} can be driven by {v2,v3} under two different valuations
+    kind = draw(st.sampled_from(("activation", "inhibition")))
+    if kind == "activation":
+        parity = [0, 1, 1, 0]
+        r2, t2, r3, t3 = [3], [0, 1], [2], [0, 1]
+    else:
+        parity = [1, 0, 0, 1]
+        r2, t2, r3, t3 = [3], [1, 0], [2], [1, 0]
+    # v0 = v1 | g(v2, v3) ; v1 = v0
+    tab0 = []
+    for idx in range(8):
+        y, a, b = (idx >> 2) & 1, (idx >> 1) & 1, idx & 1
+        tab0.append(y | parity[(a << 1) | b])
+    nj = {"names": ["v0", "v1", "v2", "v3"], "regs": [[1, 2, 3], [0], r2, r3], "tables": [tab0, [0, 1], t2, t3]}
+    if draw(st.booleans()):
+        extra = draw(gen.motif_rich(min_n=2, max_n=3))
+        nj = gen.union(nj, extra)
+    n = len(nj["names"])
+    names = list(draw(st.permutations(NAME_POOL))[:n])
+    target = [None] * n
+    target[0] = target[1] = 1
+    pre = draw(ops.steps(ops.PLAIN_OPS, n, 0, 2))
+    ctl = {"op": "control", "target_sp": target, "strategy": "all", "maxd": draw(st.sampled_from((None, 2, 3)))}
+    return {"net": {"names": names, "regs": nj["regs"], "tables": nj["tables"]}, "config": {}, "via": "api", "steps": pre + [ctl]}
+
+
+@st.composite
 def _case(draw, tier):
     m = 6
-    scs = [draw(_scenario(7)) for _ in range(m)]
+    scs = [draw(_scenario(7)) for _ in range(m - 1)] + [draw(_tie_scenario())]
     k = 4 if tier == "quick" else 16
     orders = []
     for _ in range(k):
